@@ -64,7 +64,7 @@ def tree(rng, depth, size=32):
         n = rng.choice([2, 2, 3, 4])
         args = [tree(rng, depth - 1) for _ in range(n)]
         y = rng.random()
-        if y < 0.12:
+        if y < 0.10:
             # two siblings applying the same NON-commutative operator to swapped operands
             # (operands anchored on identifiers: two constants would make the simplifier fold a huge shift)
             a, b = rng.sample(REG_RECIPES + FRESH, 2)
@@ -72,7 +72,7 @@ def tree(rng, depth, size=32):
                 a = ['O', '+', [a, tree(rng, depth - 2)]]
             nc = rng.choice(['<<', '>>', 'a>>', '<<<', '>>>', '==', '-'])
             args += [['O', nc, [a, b]], ['O', nc, [b, a]]]
-        elif y < 0.34:
+        elif y < 0.28:
             # a register, an identifier that only LOOKS like it (same name and size, not a register), the register again
             r = rng.choice([x for x in REG_RECIPES if x[1] in ('eax', 'ecx', 'init_eax')])
             u = [x for x in LOOKALIKE if x[1] == r[1]][0]
@@ -82,12 +82,12 @@ def tree(rng, depth, size=32):
                     return ['M', x, 32, None, False]
                 return x
             args += rng.choice([[mk(r), mk(u), mk(r)], [mk(u), mk(r), mk(u)], [mk(r), mk(r), mk(u)]])
-        elif y < 0.44:
+        elif y < 0.36:
             # sibling conditions that share the condition and one branch
             c0 = rng.choice(REG_RECIPES + FRESH)
             s1, s2, s3 = r_int(rng.choice(CONSTS)), r_int(rng.choice(CONSTS)), rng.choice(REG_RECIPES)
             args += rng.choice([[['?', c0, s1, s2], ['?', c0, s1, s3]], [['?', c0, s2, s1], ['?', c0, s3, s1]], [['?', c0, s1, s3], ['?', c0, s1, s2]]])
-        elif y < 0.40 and op in ('^', '|', '&', '+'):
+        elif y < 0.41 and op in ('^', '|', '&', '+'):
             # the same 16-bit value once as two adjacent byte slices and once as one slice, zero-extended
             src = rng.choice(REG_RECIPES + FRESH)
             st = rng.choice([0, 8, 16])
@@ -111,13 +111,22 @@ def tree(rng, depth, size=32):
             # a term and its negation as siblings (sort keys must tell them apart)
             a = rng.choice(REG_RECIPES + FRESH) if rng.random() < 0.6 else tree(rng, depth - 2)
             args += rng.choice([[a, ['O', '-', [a]]], [['O', '-', [a]], a]])
-        elif y < 0.66 and op in ('|', '&', '^', '+'):
+        elif y < 0.64 and op in ('|', '&', '^', '+'):
             # memory operands that differ only by their segment, plus a duplicate
             addr = rng.choice(REG_RECIPES) if rng.random() < 0.6 else ['O', '+', [rng.choice(REG_RECIPES), r_int(rng.choice([4, 8]))]]
             segs = [['D', sname, 16, False, True] for sname in rng.sample(['ds', 'es', 'ss', 'fs'], 2)]
             m0 = ['M', addr, 32, segs[0], False]
             m1 = ['M', addr, 32, segs[1], False]
             args += rng.choice([[m0, m1, m0], [m1, m0], [m0, m1, m1], [m1, ['M', addr, 32, None, False], m0]])
+        elif y < 0.72:
+            # sibling operands that are n-ary nodes of one OTHER operator with prefix-related operand lists
+            # ((a^b) and (a^b^c)): the order on expressions must still separate them
+            op2 = rng.choice([o for o in ('+', '^', '&', '|') if o != op])
+            xs = rng.sample(REG_RECIPES + FRESH, 3) + [r_int(rng.choice([0x10, 0xff00, 3]))]
+            short, longer = ['O', op2, xs[:2]], ['O', op2, xs[:3]]
+            sib = [short, longer] + ([['O', op2, xs[:4]]] if rng.random() < 0.3 else [])
+            rng.shuffle(sib)
+            args += sib
         if rng.random() < 0.25:
             args.append(args[0])                     # A op A rules
         if op == '+' and rng.random() < 0.25:
